@@ -169,3 +169,50 @@ def gen_cases(tier="quick", groups=None, use_cache=True):
                 os.replace(tmp, path)
         stats["wall_s"] = time.time() - t0
     return result, stats
+
+
+def gen_programs(tier="quick", group="all", use_cache=True):
+    """Finished behaviours of Laws.tla (TLC checks LawHolds on the way).  Returns (programs, stats)."""
+    key = spec_hash("laws", tier, group)
+    cache_dir = os.path.join(SCRATCH_ROOT, "vverif-cache")
+    os.makedirs(cache_dir, exist_ok=True)
+    path = os.path.join(cache_dir, f"laws-{key}.json")
+    if use_cache and os.path.exists(path):
+        try:
+            with open(path) as f:
+                d = json.load(f)
+            return d["programs"], d["stats"]
+        except Exception:
+            pass
+    cfg = (f'SPECIFICATION Spec\nCONSTANTS\n  Tier = "{tier}"\n  Group = "{group}"\n'
+           "INVARIANT LawHolds\nINVARIANT SingleAssignment\nINVARIANT Emit\nCHECK_DEADLOCK FALSE\n")
+    r = run_tlc("Laws", cfg, workers=8, xmx="6g")
+    progs = parse_cases(r["lines"], "@@PROG ")
+    if not progs:
+        raise TLCError("Laws: no finished behaviour printed")
+    stats = {"generated": r["generated"], "distinct": r["distinct"], "wall_s": r["wall_s"],
+             "decided_asserts": sum(sum(1 for x in p["decided"] if x == "T") for p in progs),
+             "asserts": sum(len(p["asserts"]) for p in progs)}
+    tmp = path + f".{os.getpid()}.tmp"
+    with open(tmp, "w") as f:
+        json.dump({"programs": progs, "stats": stats}, f)
+    os.replace(tmp, path)
+    return progs, stats
+
+
+def run_tlapm(module_path, timeout=1200):
+    """Check a proof module with tlapm (fingerprint cache deleted first).  Returns (obligations, proved)."""
+    d = os.path.dirname(module_path)
+    shutil.rmtree(os.path.join(d, ".tlacache"), ignore_errors=True)
+    p = subprocess.run(["tlapm", "--threads", "8", os.path.basename(module_path)], cwd=d, stdout=subprocess.PIPE,
+                       stderr=subprocess.STDOUT, text=True, timeout=timeout)
+    out = p.stdout
+    shutil.rmtree(os.path.join(d, ".tlacache"), ignore_errors=True)
+    m = re.search(r"All (\d+) obligations? proved", out)
+    if m:
+        n = int(m.group(1))
+        return n, n, out
+    m = re.search(r"(\d+)/(\d+) obligations? failed", out)
+    if m:
+        return int(m.group(2)), int(m.group(2)) - int(m.group(1)), out
+    raise TLCError("tlapm output not understood:\n" + out[-2000:])
